@@ -99,7 +99,7 @@ def run_c20(tape, r, tier, sandbox):
     tag_extra = []
     k = tape.draw(6, 'opt.tags')
     if k == 1:
-        tag_extra = ['--follow-tags', 'a,img,link,script']
+        tag_extra = ['--follow-tags', 'a,area,img,link,script,embed,input,iframe']
     elif k == 2:
         tag_extra = ['--ignore-tags', 'meta']
     elif k == 3:
